@@ -51,6 +51,11 @@ def run(ctx):
         sp['opts']['skip_nodes'] = [nn[0] if rng.random() < 0.6 else rng.choice(nn)]
         sp['opts']['n_inj'] = 4 if ctx.tier == 'quick' else 8
     specs += skp
+    # steps that are not one main time unit long (prices are per unit of volume, whatever the step length)
+    dtn = gen.gen_many(ctx.seed, n // 2, dict(CFG, freqs=['15min', '30min', '2h', 'd'], units=['h', 'h', 'd'], p_coarse=0.0, p_periodic=0.0, tzs=[None]), 'c18dt_')
+    for sp in dtn:
+        sp['opts']['n_inj'] = 4 if ctx.tier == 'quick' else 8
+    specs += dtn
     specs = ctx.specs(specs)
     res = C.run_impl('prices', specs)
     exprs, owners = [], []
